@@ -12,6 +12,7 @@
      flows/info.go                 NewResultInfo, NewResultSpecs (merge by key; categories merged with strings.EqualFold)
      flows/routers/base.go         baseRouter.EnumerateResults, routeToCategory, RouteTimeout
      flows/routers/switch.go       Case.Dependencies (has_group), SwitchRouter.EnumerateTemplates/EnumerateDependencies
+     flows/routers/waits/dial.go   DialWait.EnumerateTemplates (the phone template; via baseRouter.EnumerateTemplates)
      flows/actions/*.go            Results() / saveResult of set_run_result, call_classifier, call_resthook, call_webhook,
                                    open_ticket, transfer_airtime; enter_flow's PushFlow
      flows/engine/session.go       visitNode, pickNodeExit, tryToResume, continueUntilWait (as the step acceptor below)
@@ -255,7 +256,9 @@ Record router := {
   rt_switch : bool;                 (* switch (true) or random (false) *)
   rt_operand : tpl;  rt_cases : list rcase;  rt_default : option N;      (* switch only *)
   rt_result_name : text;  rt_categories : list category;
-  rt_wait : option (option N)       (* Some tmo: has a wait, tmo = the timeout's category *)
+  rt_wait : option (option N);      (* Some tmo: has a wait, tmo = the timeout's category *)
+  rt_wait_tpls : list tpl           (* the wait's own templates: the phone of a dial wait (waits/dial.go
+                                       DialWait.EnumerateTemplates); none for a msg wait *)
 }.
 
 Record node := { n_id : N; n_actions : list action; n_router : option router; n_exits : list exit_ }.
@@ -340,9 +343,11 @@ Definition waiting_exits (f : flow) : list N :=
 Definition action_templates (a : action) : list tpl :=
   flat_map (fun it => match it with ITpl f => tfield_templates f | IRef _ => [] end) (a_items a).
 
-(* SwitchRouter.EnumerateTemplates: the operand, then the cases' arguments; baseRouter (random): none *)
+(* baseRouter.EnumerateTemplates: the templates of the wait, if it has any (random routers: only these);
+   SwitchRouter.EnumerateTemplates: the operand, then the cases' arguments, then the base's *)
 Definition router_templates (r : router) : list tpl :=
-  if rt_switch r then rt_operand r :: flat_map (fun c => tfield_templates (cs_args c)) (rt_cases r) else [].
+  (if rt_switch r then rt_operand r :: flat_map (fun c => tfield_templates (cs_args c)) (rt_cases r) else [])
+  ++ match rt_wait r with Some _ => rt_wait_tpls r | None => [] end.
 
 Definition action_refs (a : action) : list aref :=
   flat_map (fun it => match it with IRef r => [r] | ITpl _ => [] end) (a_items a).
